@@ -102,7 +102,28 @@ func GenShapeZoo(idx int) *ir.Request {
 	quotesZ := &ir.Message{Name: "QuotesZ", Fields: []*ir.Field{
 		{Name: "by_symbol", Number: 1, Kind: "message", TypeName: P + "BarsPageZ", Card: "map", MapKey: "string"},
 		{Name: "label", Number: 2, Kind: "string"}}}
-	f.Messages = []*ir.Message{leaf, stamps, textV, imageV, gone, emptyZ, mkEvent("OneofFlatZ", true), mkEvent("OneofNestedZ", false), find, del, nick, flatNull, alias, aliasPut, barZ, pageZ, quotesZ}
+	// TWO discriminated oneofs in one message, the flattened one declared first, the nested one last
+	// (and the reverse): whether the message needs the intersection form is a property of all of them
+	mkTwo := func(name string, firstFlat bool) *ir.Message {
+		return &ir.Message{Name: name,
+			Oneofs: []*ir.Oneof{{Name: "content", HasConfig: true, Discriminator: sp("type"), Flatten: firstFlat}, {Name: "origin", HasConfig: true, Discriminator: sp("source"), Flatten: !firstFlat}},
+			Fields: []*ir.Field{
+				{Name: "id", Number: 1, Kind: "string"},
+				{Name: "text", Number: 2, Kind: "message", TypeName: P + "TextVariantZ", Oneof: "content"},
+				{Name: "image", Number: 3, Kind: "message", TypeName: P + "ImageVariantZ", Oneof: "content"},
+				{Name: "leaf", Number: 4, Kind: "message", TypeName: P + "LeafZ", Oneof: "origin"},
+				{Name: "bar", Number: 5, Kind: "message", TypeName: P + "BarZ", Oneof: "origin"},
+			}}
+	}
+	// a flatten field that is ALSO required by its validation rules: the field itself never appears on
+	// the wire (its members do, under the prefix), so no published `required` list may name it
+	flatReq := &ir.Message{Name: "FlattenRequiredZ", Fields: []*ir.Field{
+		{Name: "id", Number: 1, Kind: "string", Rules: &ir.Rules{Required: true}},
+		{Name: "billing", Number: 2, Kind: "message", TypeName: P + "LeafZ", Ann: ir.Ann{Flatten: &tr, FlattenPrefix: sp("billing_")}, Rules: &ir.Rules{Required: true}},
+		{Name: "depot", Number: 3, Kind: "message", TypeName: P + "LeafZ", Rules: &ir.Rules{Required: true}},
+	}}
+	f.Messages = []*ir.Message{leaf, stamps, textV, imageV, gone, emptyZ, mkEvent("OneofFlatZ", true), mkEvent("OneofNestedZ", false), find, del, nick, flatNull, alias, aliasPut, barZ, pageZ, quotesZ,
+		mkTwo("OneofTwoFlatFirstZ", true), mkTwo("OneofTwoNestedFirstZ", false), flatReq}
 	f.Services = []*ir.Service{{Name: "Zoo", BasePath: "/zoo", Methods: []*ir.Method{
 		{Name: "PutStamps", Input: P + "PlainStamps", Output: P + "PlainStamps", Config: &ir.HTTPConfig{Path: "/stamps", Method: "POST"}},
 		{Name: "PutFlat", Input: P + "OneofFlatZ", Output: P + "OneofFlatZ", Config: &ir.HTTPConfig{Path: "/flat", Method: "POST"}},
@@ -114,6 +135,9 @@ func GenShapeZoo(idx int) *ir.Request {
 		{Name: "GetAlias", Input: P + "AliasGet", Output: P + "AliasPut", Config: &ir.HTTPConfig{Path: "/alias/{user_id}", Method: "GET"}},
 		{Name: "PutAlias", Input: P + "AliasPut", Output: P + "AliasPut", Config: &ir.HTTPConfig{Path: "/alias/{user_id}", Method: "PUT"}},
 		{Name: "PutQuotes", Input: P + "QuotesZ", Output: P + "QuotesZ", Config: &ir.HTTPConfig{Path: "/quotes", Method: "POST"}},
+		{Name: "PutFlatRequired", Input: P + "FlattenRequiredZ", Output: P + "FlattenRequiredZ", Config: &ir.HTTPConfig{Path: "/flat-required", Method: "POST"}},
+		{Name: "PutTwoA", Input: P + "OneofTwoFlatFirstZ", Output: P + "OneofTwoFlatFirstZ", Config: &ir.HTTPConfig{Path: "/two-a", Method: "POST"}},
+		{Name: "PutTwoB", Input: P + "OneofTwoNestedFirstZ", Output: P + "OneofTwoNestedFirstZ", Config: &ir.HTTPConfig{Path: "/two-b", Method: "POST"}},
 	}}}
 	return &ir.Request{Files: []*ir.File{f}, Generate: []string{f.Name}}
 }
